@@ -510,6 +510,7 @@ type Contract struct {
 	Props    []string
 	Requires []*Clause
 	Ensures  []*Clause
+	Exits    []*Clause // internal postconditions: checked at every return over the function's locals, never assumed by callers
 	Assigns  []AssignItem
 	Loops    map[int]*LoopSpec
 	Aliases  [][2]string
@@ -559,7 +560,7 @@ type ContractSet struct {
 var clauseKeywords = map[string]bool{
 	"func": true, "props": true, "requires": true, "ensures": true, "assigns": true, "loop": true, "alias": true,
 	"inline": true, "trusted": true, "panics": true, "nooverflow": true, "lemma": true, "pure": true, "opaque": true,
-	"extern": true, "assert": true, "fresh": true, "maybenil": true, "package": true, "pred": true, "tagset": true, "aset": true, "reads": true, "inlines": true, "unroll": true,
+	"extern": true, "assert": true, "fresh": true, "maybenil": true, "package": true, "pred": true, "tagset": true, "aset": true, "reads": true, "inlines": true, "unroll": true, "exit": true,
 }
 
 // assignSets: `//@ aset name := $.f, $.g[0:4]` — a reusable list of assigns items, `$` is the argument.
@@ -758,6 +759,12 @@ func (cs *ContractSet) ReadFile(path, pkgName string, external bool) error {
 					return err
 				}
 				cur.Ensures = append(cur.Ensures, c)
+			case "exit":
+				c, err := mk(rest)
+				if err != nil {
+					return err
+				}
+				cur.Exits = append(cur.Exits, c)
 			case "assert":
 				c, err := mk(rest)
 				if err != nil {
